@@ -36,6 +36,7 @@ type Case struct {
 	Final       string `json:"second_phase_final"` // ok | fail | noreply
 	Cancel      string `json:"cancel"`             // never | before-begin | in-callback | second-phase-first-request
 	Propagation int    `json:"propagation"`        // 0 Required (default), 1 RequiresNew
+	Reused      bool   `json:"reused,omitempty"`   // the caller's seata context already carried an earlier, finished global transaction
 	Inner       string `json:"inner,omitempty"`    // "" | join: the callback runs a nested Required scope on the same context (a participant that sends nothing)
 }
 
@@ -86,6 +87,22 @@ func execute(c Case) observed {
 
 	var o observed
 	base := context.Context(cctx)
+	if c.Reused && c.Role != "participant" {
+		// history on the caller's context: a first global transaction ran to completion on it
+		base = tm.InitSeataContext(base)
+		tc.Reset() // the earlier transaction meets a healthy coordinator
+		_ = tm.WithGlobalTx(base, &tm.GtxConfig{Name: "c04-earlier"}, func(context.Context) error { return nil })
+		tc.Reset()
+		// (scripts are re-installed below)
+		switch c.Begin {
+		case "fail":
+			tc.Script(message.MessageTypeGlobalBegin, faketc.Action{Kind: faketc.Fail, Msg: "begin refused"})
+		case "transport":
+			tc.Script(message.MessageTypeGlobalBegin, faketc.Action{Kind: faketc.TransportError})
+		}
+		tc.Script(message.MessageTypeGlobalCommit, script...)
+		tc.Script(message.MessageTypeGlobalRollback, script...)
+	}
 	if c.Role == "participant" {
 		base = tm.InitSeataContext(base)
 		tm.SetXID(base, tc.Addr+":777")
@@ -336,13 +353,14 @@ func drawCase(t *rapid.T) Case {
 	if rapid.IntRange(0, 3).Draw(t, "inner") == 0 {
 		c.Inner = "join"
 	}
+	c.Reused = rapid.IntRange(0, 3).Draw(t, "reused") == 0
 	return c
 }
 
 func record(test string, c Case) {
 	nt := c.Outcome != "nil" || c.Begin != "ok" || c.Transport > 0 || c.Final != "ok" || c.Cancel != "never" || c.Inner != ""
 	b, _ := json.Marshal(c)
-	ctx.Rec.Case(test, nt, string(b), c, "outcome:"+c.Outcome, "role:"+c.Role, "begin:"+c.Begin, "final:"+c.Final, "cancel:"+c.Cancel, "inner:"+c.Inner, fmt.Sprintf("transport-errors:%d", c.Transport))
+	ctx.Rec.Case(test, nt, string(b), c, "outcome:"+c.Outcome, "role:"+c.Role, "begin:"+c.Begin, "final:"+c.Final, "cancel:"+c.Cancel, "inner:"+c.Inner, fmt.Sprintf("reused:%v", c.Reused), fmt.Sprintf("transport-errors:%d", c.Transport))
 }
 
 func TestPropDecision(t *testing.T) {
